@@ -169,6 +169,8 @@ type Store struct {
 	ResponseKeyName string
 	// KeysPerIssuer: the response-signing key depends on the issuer in the context of the call (see ResponseKeyFor)
 	KeysPerIssuer bool
+	// RequireRequestScope: every call must carry the context value the neutral interceptor sets (see Spec.RequireRequestScope)
+	RequireRequestScope bool
 	// tenants: records that exist under one issuer host only (see Spec.Tenants)
 	tenantSPs   map[string]map[string]*serviceprovider.ServiceProvider
 	tenantUsers map[string]map[string]UserSpec
@@ -210,10 +212,16 @@ func newStore() *Store {
 }
 
 func (s *Store) before(ctx context.Context, op string) string {
-	if s.Before == nil {
-		return ""
+	forced := ""
+	if s.Before != nil {
+		forced = s.Before(ctx, op)
 	}
-	return s.Before(ctx, op)
+	if forced == "" && s.RequireRequestScope && ctx.Value(interceptorKey{}) == nil {
+		// a storage that resolves its tenant from what the application's interceptor put into the request context: a call
+		// that does not carry the request's context finds no tenant
+		forced = "error"
+	}
+	return forced
 }
 
 // fault returns the kind of fault to inject for this call of op ("" = none) and logs the call.
@@ -746,6 +754,7 @@ func endpoint(e EndpointSpec) *provider.Endpoint {
 // ProviderConfig translates an IdPConfig into the library's configuration.
 func ProviderConfig(c IdPConfig) (*provider.Config, func(bool) (provider.IssuerFromRequest, error), []provider.Option) {
 	idp := &provider.IdentityProviderConfig{
+		Insecure: c.IDPInsecure,
 		SignatureAlgorithm:     c.SignatureAlgorithm,
 		EncryptionAlgorithm:    c.EncryptionAlgorithm,
 		WantAuthRequestsSigned: c.WantAuthRequestsSigned,
@@ -895,6 +904,7 @@ func Build(spec Spec) (*World, error) {
 	st.faults = append([]Fault(nil), spec.Faults...)
 	st.Lenient = spec.LenientLookup
 	st.KeysPerIssuer = spec.KeysPerIssuer
+	st.RequireRequestScope = spec.RequireRequestScope && spec.IdP.InterceptorNeutral
 	if spec.RequestIDPrefix != "" {
 		st.IDPrefix = spec.RequestIDPrefix
 	}
